@@ -13,6 +13,7 @@ import (
 	"io"
 	"net"
 	"regexp"
+	"strings"
 )
 
 type Channel interface {
@@ -85,7 +86,11 @@ func (u *NetworkChannel) OpenConnection() (net.Conn, error) {
 		return nil, errors.Errorf("Packet connections (%v) are not yet supported", scheme)
 	}
 
-	conn, err := net.Dial(u.Address.Scheme, u.Address.Host)
+	location := u.Address.Host
+	if strings.HasPrefix(scheme, "unix") {
+		location = u.Address.Location()
+	}
+	conn, err := net.Dial(u.Address.Scheme, location)
 	if err != nil {
 		err = errors.Wrapf(err, "Remote connection failed to %v", u.Address)
 		log.WithError(err).Errorf("Could not connect to %v: %+v", u.Address, err)
